@@ -9,7 +9,24 @@ PARAM = -1  # pseudo definition site: function parameter / value on entry
 
 
 def stored_names(n: Node) -> Set[str]:
-    """local names (re)bound when node `n` completes normally."""
+    """local names (re)bound when node `n` completes normally (memoised on the AST node)."""
+    a = n.ast
+    if a is not None:
+        memo = getattr(a, "_stored_memo", None)
+        if memo is not None and n.kind in memo:
+            return memo[n.kind]
+    out = _stored_names(n)
+    if a is not None:
+        try:
+            if getattr(a, "_stored_memo", None) is None:
+                a._stored_memo = {}
+            a._stored_memo[n.kind] = out
+        except Exception:  # pragma: no cover
+            pass
+    return out
+
+
+def _stored_names(n: Node) -> Set[str]:
     a = n.ast
     out: Set[str] = set()
     if a is None:
